@@ -29,6 +29,7 @@ fn c03_q_oneshot_first_send_wins() {
   }
   assert!(rx.try_recv() == Ok(1), "C01: oneshot receiver did not get the first value");
   assert!(rx.try_recv().is_err(), "C01: oneshot value delivered twice");
+  kani::cover!(true, "scenario ran to its end");
 }
 
 /// C04 (oneshot): all senders gone without a send => Disconnected; receiver gone => send is Closed(v).
